@@ -125,7 +125,7 @@ def evaluate(case, out):
             for j, p in enumerate(s["ps"]):
                 a = con.assertions[f"W v L{j}"]
                 a.margin = 0.1
-                a.test = NonnegMean(test=(lambda self, x, _p=p, **kw: (_p, np.array([1.0, _p]))), u=1, N=10, t=0.5)
+                a.test = NonnegMean(test=(lambda self, x, _p=p, **kw: (_p, np.array([1.0, _p / 2, _p]))), u=1, N=10, t=0.5)
         mv = [CVR(id="1", votes={c: {"W": 1} for c in specs}), CVR(id="2", votes={c: {"L0": 1} for c in specs})]
         try:
             with contextlib.redirect_stdout(io.StringIO()):
@@ -137,7 +137,7 @@ def evaluate(case, out):
         for cid, s in specs.items():
             for j, p in enumerate(s["ps"]):
                 a = contests[cid].assertions[f"W v L{j}"]
-                out.expect(float(a.p_value) == p and list(map(float, a.p_history)) == [1.0, p], "recorded-p!=test-output", lambda: (cid, j, a.p_value, p))
+                out.expect(float(a.p_value) == p and list(map(float, a.p_history)) == [1.0, p / 2, p], "recorded-p!=test-output", lambda: (cid, j, a.p_value, p))
         _judge(out, contests, ret, done, feats)
         # a second computation on other data, without a reset in between: the records must follow the new data
         before = {(cid, k): bool(a.proved) for cid, con in contests.items() for k, a in con.assertions.items()}
@@ -192,6 +192,12 @@ def evaluate(case, out):
                 out.skip("nan-pool-mean")
                 return
     sa.apply_plan(scn, scn["plan"], cvrs, contests)
+    # an assertion's test may be declared not to be in random order (then its overall p-value is the last entry)
+    for i, con in enumerate(contests.values()):
+        for j, a in enumerate(con.assertions.values()):
+            if (len(cvrs) + i + j) % 3 == 0:
+                a.test.random_order = False
+                feats.add("test-not-in-random-order")
     try:
         idx = CVR.consistent_sampling(cvrs, contests)
         cs, ms = [cvrs[i] for i in idx], [mvrs[i] for i in idx]
